@@ -72,6 +72,7 @@ type verifLive struct {
 	exited    bool
 	err       error
 	start     uint64 // clock at Entry
+	herr      error  // error its exit handler records on it
 }
 
 func VerifC01() {
@@ -114,7 +115,7 @@ func VerifC01() {
 		switch op {
 		case 0: // Entry
 			r := rt.Choice(2)
-			tt := rt.Choice(2)
+			tt := rt.Choice(2 + rt.Param("DEFTT")) // DEFTT=1: a third choice, no traffic-type option (the documented default is Outbound)
 			inbound := tt == 0
 			b := rt.U32n("batch", 10)
 			if pre {
@@ -127,7 +128,13 @@ func VerifC01() {
 				prep.boom, prepPanics = true, true
 			}
 			p0, b0, c0 := rec.passed, rec.blocked, rec.completed
-			e, blk := Entry(names[r], WithSlotChain(sc), WithBatchCount(b), WithTrafficType(types[tt]))
+			var e *base.SentinelEntry
+			var blk *base.BlockError
+			if tt < 2 {
+				e, blk = Entry(names[r], WithSlotChain(sc), WithBatchCount(b), WithTrafficType(types[tt]))
+			} else {
+				e, blk = Entry(names[r], WithSlotChain(sc), WithBatchCount(b))
+			}
 			rt.Reach("c01.entry")
 			rt.Assert((e != nil) != (blk != nil), "every Entry yields exactly one of an entry and a block error")
 			rt.Assert((e != nil) == (rule.mode != 2), "blocked iff a rule-check slot blocked; a panicking rule check passes the request")
@@ -145,6 +152,16 @@ func VerifC01() {
 					inGauge++
 				}
 				l := &verifLive{e: e, res: r, batch: b, inbound: inbound, start: now}
+				if rt.Param("HANDLER") != 0 && rt.Bool("exitHandler") {
+					// an exit handler that records an error on its own entry while the entry exits
+					nErr++
+					l.herr = &verifErr{nErr}
+					herr := l.herr
+					e.WhenExit(func(en *base.SentinelEntry, ctx *base.EntryContext) error {
+						TraceError(en, herr)
+						return nil
+					})
+				}
 				if rule.mode == 3 {
 					l.err = e.Context().Err() // the internal panic is recorded as the entry's error (upstream design)
 					rt.Assert(l.err != nil, "an internal panic is recorded on the entry")
@@ -177,6 +194,9 @@ func VerifC01() {
 			} else if !l.exited {
 				if err != nil {
 					l.err = err
+				}
+				if l.herr != nil {
+					l.err = l.herr // recorded by the exit handler, before the statistic slots are told
 				}
 				rt.Reach("c01.exit")
 				rt.Assert(rec.completed == c0+1 && rec.lastEntry == l.e && rec.lastRes == names[l.res] && rec.lastBatch == l.batch, "the first Exit of a passed entry completes exactly that entry")
